@@ -28,7 +28,10 @@ def model_diff(a, b, path="m"):
     if isinstance(a, M.Keyword):
         return None if a.name == b.name else f"{path}: keyword {a.name!r} vs {b.name!r}"
     if isinstance(a, (M.Float, M.Complex)):
-        return None if repr(a) == repr(b) else f"{path}: value {a!r} vs {b!r}"
+        import cmath
+        ca, cb = complex(a), complex(b)
+        same = all((x == y) or (x != x and y != y) for x, y in ((ca.real, cb.real), (ca.imag, cb.imag)))
+        return None if same else f"{path}: value {a!r} vs {b!r}"
     return None if a == b and str(a) == str(b) else f"{path}: value {a!r} vs {b!r}"
 
 
@@ -159,8 +162,256 @@ def main_c25(run):
                       extra={"exhaustive": True})
 
 
+# ---------------------------------------------------------------- C30 / C31
+def tm(t, v="", ch=(), x=""):
+    return {"t": t, "v": v, "x": x, "ch": list(ch)}
+
+
+def build(t):
+    """template tree -> real model"""
+    import hy.models as M
+    k = t["t"]
+    if k == "sym":
+        return M.Symbol(t["v"])
+    if k == "kw":
+        return M.Keyword(t["v"])
+    if k == "int":
+        return M.Integer(int(t["v"]))
+    if k == "str":
+        return M.String(t["v"], brackets=(t["x"][1:] if t["x"].startswith("#") else None))
+    kids = [build(c) for c in t["ch"]]
+    if k == "fstr":
+        return M.FString(kids, brackets=(t["x"][1:] if t["x"].startswith("#") else None))
+    if k == "fcomp":
+        return M.FComponent(kids, conversion=(t["x"] or None))
+    return {"expr": M.Expression, "list": M.List, "tuple": M.Tuple, "set": M.Set, "dict": M.Dict}[k](kids)
+
+
+def pyvalue(val):
+    k = val["py"]
+    if k == "model":
+        return build(val["m"])
+    if k == "int":
+        return int(val["v"])
+    if k in ("none", "true", "false"):
+        return {"none": None, "true": True, "false": False}[k]
+    if k == "str":
+        return val["v"]
+    xs = [pyvalue(x) for x in val["items"]]
+    return xs if k == "list" else tuple(xs)
+
+
+ATOMS = [tm("sym", "a"), tm("sym", "None"), tm("kw", "k"), tm("int", "1"), tm("str", "s"), tm("sym", "unquote"),
+         tm("list"), tm("kw", ""), tm("sym", "...")]
+XVALS = [{"py": "model", "m": tm("sym", "b")}, {"py": "int", "v": "7"}, {"py": "none"},
+         {"py": "list", "items": [{"py": "int", "v": "1"}, {"py": "none"}]},
+         {"py": "model", "m": tm("list", ch=[tm("sym", "p"), tm("sym", "q")])}, {"py": "str", "v": "t"},
+         {"py": "tuple", "items": [{"py": "int", "v": "1"}]}, {"py": "true"},
+         {"py": "model", "m": tm("expr", ch=[tm("sym", "unquote"), tm("sym", "zz")])}]
+SVALS = [{"py": "none"}, {"py": "list", "items": []},
+         {"py": "list", "items": [{"py": "int", "v": "1"}, {"py": "str", "v": "u"}]},
+         {"py": "model", "m": tm("list", ch=[tm("sym", "p"), tm("sym", "q")])},
+         {"py": "tuple", "items": [{"py": "int", "v": "2"}]}, {"py": "model", "m": tm("expr", ch=[tm("sym", "f"), tm("sym", "g")])},
+         {"py": "int", "v": "0"}, {"py": "model", "m": tm("tuple")}, {"py": "int", "v": "5"}]
+
+
+def gen_template(rng, depth, level=0, holes=True):
+    r = rng.random()
+    if depth <= 0 or r < 0.25:
+        return rng.choice(ATOMS)
+    if holes and r < 0.45:
+        return tm("expr", ch=[tm("sym", "unquote"), tm("sym", rng.choice(["x", "y"]))])
+    if holes and r < 0.6:
+        return tm("expr", ch=[tm("sym", "unquote-splice"), tm("sym", rng.choice(["xs", "ys"]))])
+    if r < 0.7:
+        return tm("expr", ch=[tm("sym", "quasiquote"), gen_template(rng, depth - 1, level + 1, holes)])
+    k = rng.choice(["expr", "list", "tuple", "set", "dict", "expr", "list"])
+    ch = [gen_template(rng, depth - 1, level, holes) for _ in range(rng.randint(0, 3))]
+    if k == "expr" and ch and ch[0]["t"] == "sym" and ch[0]["v"] in ("unquote", "unquote-splice", "quasiquote"):
+        ch[0] = tm("sym", "a")      # the symbol `unquote` as plain data is generated, but not as a head
+    return tm(k, ch=ch)
+
+
+def enum_templates(size, pool):
+    """all templates with exactly `size` nodes over a small pool (holes included)"""
+    import itertools
+    if size == 1:
+        return list(pool)
+    out = []
+    for kind in ("expr", "list", "dict"):
+        for n in range(1, min(size - 1, 3) + 1):
+            from ..corpus import splits
+            for sp in splits(size - 1, n):
+                for combo in itertools.product(*[enum_templates(z, pool) for z in sp]):
+                    out.append(tm(kind, ch=list(combo)))
+    return out
+
+
+def run_quasi(run, cases, label):
+    tf = run.work / f"quasi-{label}.ndjson"
+    with open(tf, "w") as f:
+        for c in cases:
+            f.write(json.dumps(c) + "\n")
+    r = tlc.run("HyQuasi", tlc.cfg(invariants=["QuoteIsIdentity", "LiteralReproduced", "TopShapeKept", "Export"]),
+                run.work, workers=16, env={"CASE_FILE": str(tf)}, label=label, timeout=3000)
+    if r.violated:
+        raise MachineryError(f"HyQuasi: {r.violated} fails on the specification")
+    run.add_tlc(r, f"HyQuasi: {len(cases)} templates x environments ({label})")
+    return {e["cid"]: e for e in r.ex("CASE")}
+
+
+def quasi_cases(rng, q):
+    import itertools
+    hole_pool = [tm("sym", "a"), tm("int", "1"), tm("expr", ch=[tm("sym", "unquote"), tm("sym", "x")]),
+                 tm("expr", ch=[tm("sym", "unquote-splice"), tm("sym", "xs")])]
+    # (unquote x) counts as a leaf of the pool: its own size is 1 here
+    temps = []
+    for size in (2, 3, 4, 5) if q else (2, 3, 4, 5, 6):
+        ts = enum_templates(size, hole_pool)
+        if q and len(ts) > 1500:
+            ts = rng.sample(ts, 1500)
+        elif len(ts) > 40000:
+            ts = rng.sample(ts, 40000)
+        temps += ts
+    # nested quasiquote levels
+    for _ in range(1500 if q else 30000):
+        temps.append(gen_template(rng, rng.choice([2, 3, 4])))
+    cases = []
+    for t in temps:
+        for _ in range(2 if q else 4):
+            env = {"x": rng.choice(XVALS), "y": rng.choice(XVALS), "xs": rng.choice(SVALS), "ys": rng.choice(SVALS)}
+            cases.append({"tmpl": t, "env": env})
+    return cases
+
+
+def eval_quoted(head, model, env):
+    import hy
+    from hy.models import Expression, Symbol
+    g = {k: pyvalue(v) for k, v in env.items()}
+    try:
+        return "ok", hy.eval(Expression([Symbol(head), model]), g)
+    except TypeError as e:
+        return "typeerror", e
+    except Exception as e:
+        return "raised " + type(e).__name__, e
+
+
+def check_quasi(run, cases, exp, which):
+    import hy
+    for i, c in enumerate(cases, 1):
+        e = exp[i]
+        m = build(c["tmpl"])
+        want = e["quasi"] if which == "quasi" else e["quote"]
+        run.case((which, json.dumps(c, sort_keys=True)), nontrivial=which == "quote" or json.dumps(c["tmpl"]).count("unquote") > 0)
+        if want[0] in ("value", "splice"):
+            continue        # an unquote directly under the quasiquote: outside the property
+        st, got = eval_quoted("quasiquote" if which == "quasi" else "quote", m, c["env"])
+        text = hy.repr(m)
+        if want[0] == "error":
+            if st == "ok":
+                run.violation(f"{which}:" + text, f"(`{which}` {text}) with {c['env']} should fail ({want[1]}) but gives "
+                              f"{hy.repr(got)}", {"case": c})
+            else:
+                run.cov["traces_validated_against_impl"] += 1
+            continue
+        if st != "ok":
+            run.violation(f"{which}:" + text, f"({which} {text}) {st}: {got}", {"case": c})
+            continue
+        # substituted values may sit in the result unpromoted (models may contain non-models, which
+        # Hy promotes whenever the model is used): compare after hy.as-model
+        try:
+            got = hy.as_model(got)
+            d = model_diff(build(want[1]), got)
+        except Exception as e2:
+            d = f"result cannot be promoted: {e2!r}"
+        if d:
+            run.violation(f"{which}:" + text + json.dumps(c["env"], sort_keys=True)[:80],
+                          f"({which} {text}) with x,y,xs,ys = "
+                          f"{[hy.repr(pyvalue(c['env'][k])) for k in ('x', 'y', 'xs', 'ys')]} gives {got!r}, "
+                          f"expected {hy.repr(build(want[1]))}: {d}", {"case": c})
+        else:
+            run.cov["traces_validated_against_impl"] += 1
+
+
+def main_c31(run):
+    rng = random.Random(run.seed)
+    cases = quasi_cases(rng, run.quick)
+    exp = run_quasi(run, cases, "c31")
+    run.log(f"{len(cases)} template/environment cases")
+    check_quasi(run, cases, exp, "quasi")
+    import hy
+    run.sample({"template": hy.repr(build(cases[-1]["tmpl"])), "env": {k: hy.repr(pyvalue(v)) for k, v in cases[-1]["env"].items()},
+                "expected": exp[len(cases)]["quasi"]})
+    return run.finish("model_checking",
+                      "templates: every tree <= 4 (thorough 5) nodes over expr/list/dict with atoms, ~x and ~@xs leaves, plus "
+                      "random templates with nested quasiquote levels and all sequence kinds; environments: values for the "
+                      "holes (models, ints, None, lists, tuples, strings, falsy values); HyQuasi computes the reference "
+                      "result in TLC (laws checked per case), hy.eval of the quasiquote form is compared node by node")
+
+
+def main_c30(run):
+    import hy
+    from hy.models import Expression, Symbol
+    from .reader import mutated_programs
+    rng = random.Random(run.seed)
+    q = run.quick
+    # spec level: quote is the identity on every template, including ones full of unquotes
+    cases = quasi_cases(rng, q)
+    exp = run_quasi(run, cases, "c30")
+    check_quasi(run, cases, exp, "quote")
+    # models from texts and from constructors, with all extra attributes
+    from hy.models import (Keyword, String, List, FString, FComponent, Integer, Dict, Tuple, Set, Bytes, Float, Complex)
+    built = [FString([String("a"), FComponent([Symbol("x"), String(">5")], conversion="r", expression="x")]),
+             FString([FComponent([Symbol("x")], expression="x ")], brackets="f"),
+             FString([FComponent([Symbol("x")], is_tstring=True)], is_tstring=True),
+             String("q", brackets=""), String("q", brackets="zz"), Bytes(b"\x00\xff"), Keyword(""), Keyword("a.b") if False else Keyword("ab"),
+             Symbol("None"), Symbol("unquote"), Symbol("."), Symbol("..."), Symbol("@a"), Symbol("True"),
+             List([]), Tuple([]), Set([]), Dict([]), Expression([]), Expression([Symbol("unquote"), Symbol("x")]),
+             Expression([Symbol("quasiquote"), Expression([Symbol("unquote-splice"), Symbol("x")])]),
+             Float("NaN"), Float("-0.0"), Complex("1-0j"), Integer(0), Dict([Integer(1)]),
+             Expression([Symbol("quote"), Expression([Symbol("quote"), Symbol("a")])])]
+    texts = [t for t in mutated_programs(rng, 600 if q else 30000)]
+    models = list(built)
+    for t in texts:
+        try:
+            models += list(hy.read_many(t))
+        except Exception:
+            pass
+    n = 0
+    for m in models:
+        run.case(("model", hy.repr(m) if True else ""))
+        try:
+            got = hy.eval(Expression([Symbol("quote"), m]))
+        except Exception as e:
+            run.violation("quote:" + repr(m)[:200], f"(quote {m!r}) raised {type(e).__name__}: {e}", {"model": repr(m)})
+            continue
+        d = model_diff(m, got)
+        if d is None:
+            # the attribute `expression` of f-string fields must survive too
+            import hy.models as M
+            stack = [(m, got)]
+            while stack and d is None:
+                a, b = stack.pop()
+                if isinstance(a, M.FComponent) and a.expression != b.expression:
+                    d = f"expression {a.expression!r} vs {b.expression!r}"
+                if isinstance(a, M.Sequence):
+                    stack += list(zip(a, b))
+        if d:
+            run.violation("quote:" + repr(m)[:200], f"(quote {hy.repr(m)}) is not the same model: {d}", {"model": repr(m)})
+        else:
+            n += 1
+            run.cov["traces_validated_against_impl"] += 1
+    run.cov["quoted_models"] = n
+    run.sample({"model": repr(built[0])})
+    return run.finish("model_checking",
+                      "QuoteIsIdentity is a TLC-checked law of HyQuasi on every template (including ones made of unquote / "
+                      "quasiquote forms); hy.eval of (quote m) is compared node by node, with brackets, conversion, "
+                      "expression and is_tstring, for every template, for models read from generated programs and for "
+                      "models assembled from constructors")
+
+
 def main(run):
-    return {"C25": main_c25}[run.pid](run)
+    return {"C25": main_c25, "C30": main_c30, "C31": main_c31}[run.pid](run)
 
 
 def replay(run, path):
